@@ -50,8 +50,12 @@ class Harness:
         return self.meta.get(key, [])
 
     @property
+    def props(self):
+        return (self.get("prop") or "").split(",")
+
+    @property
     def prop(self):
-        return self.get("prop")
+        return self.props[0]
 
     @property
     def tiers(self):
@@ -59,7 +63,7 @@ class Harness:
 
 
 META_RE = re.compile(r"^\s*//\s*@verif\s+(.*)$")
-FN_RE = re.compile(r"^\s*(?:pub\s+)?fn\s+([A-Za-z0-9_]+)\s*\(")
+FN_RE = re.compile(r"^\s*(?:(?:pub\s+)?fn\s+([A-Za-z0-9_]+)\s*\(|[a-z_0-9]+!\(\s*([A-Za-z0-9_]+)\s*,)")
 KV_RE = re.compile(r"([a-z_]+)=((?:\"[^\"]*\")|(?:\S+))")
 LONG_KEYS = ("bound", "assume", "stub", "fns", "outside", "what")
 
@@ -88,7 +92,7 @@ def scan_file(path, module, crate):
             if pending:
                 fm = FN_RE.match(line)
                 if fm:
-                    out.append(Harness(fm.group(1), module, path, meta, crate))
+                    out.append(Harness(fm.group(1) or fm.group(2), module, path, meta, crate))
                     meta = {}
                     pending = False
     return out
@@ -99,7 +103,8 @@ def discover():
     src = os.path.join(KANI_CRATE, "src")
     for fn in sorted(os.listdir(src)):
         if fn.endswith(".rs") and fn not in ("lib.rs",):
-            hs += scan_file(os.path.join(src, fn), fn[:-3], "ext")
+            mod = {"ops_list": "ops"}.get(fn[:-3], fn[:-3])  # include!()d lists live in their parent module
+            hs += scan_file(os.path.join(src, fn), mod, "ext")
     # in-crate harness files (bin-only crates), mounted by a cfg(kani) #[path] hook
     incrate = os.path.join(VERIF, "hooks", "incrate.json")
     if os.path.exists(incrate):
@@ -128,11 +133,14 @@ def load_loop_table():
     return {"patterns": []}
 
 
+CURRENT_PROP = [None]
+
+
 def kani_cmd(h, json_path, unwindset, playback=False):
     if h.crate == "ext":
         cwd = KANI_CRATE
         cmd = ["cargo", "kani"]
-        feat = h.get("feature", h.prop.lower())
+        feat = h.get("feature", (CURRENT_PROP[0] or h.prop).lower())
         cmd += ["--features", feat]
     else:
         cwd = REPO
@@ -246,6 +254,11 @@ def parse_result(json_path, logfile, h):
         elif status == "Failure":
             ent = {"function": fn, "description": desc, "category": cat,
                    "file": c.get("location", {}).get("file"), "line": c.get("location", {}).get("line")}
+            pm = re.match(r"^\"?(C\d\d):", desc)
+            if pm and CURRENT_PROP[0] and pm.group(1) != CURRENT_PROP[0]:
+                # an obligation of another property sharing this harness: not this check's business
+                res["other_prop_failed"] = res.get("other_prop_failed", 0) + 1
+                continue
             if cat == "unwind" or UNWIND_DESC.search(desc) or RECUR_DESC.search(desc):
                 res["unwind_failed"].append(ent)
             else:
@@ -262,7 +275,7 @@ def parse_result(json_path, logfile, h):
         res["status"] = "unwind"
     elif res["failed"]:
         res["status"] = "failed"
-    elif st == "Success" and undetermined == 0:
+    elif (st == "Success" or res.get("other_prop_failed")) and undetermined == 0:
         res["status"] = "vacuous" if res["covers"]["unsat"] else "ok"
     else:
         # kani says failure but no failed check parsed (e.g. unsupported construct reachable)
@@ -365,6 +378,8 @@ def run_harness(h, tier, table, jobs_note=""):
         res = parse_result(json_path, logfile, h)
         res["rc"] = rc
         res["cmd"] = " ".join(cmd)
+        if "Out of memory" in res["log_tail"] or "ran out of memory" in res["log_tail"] or "std::bad_alloc" in res["log_tail"]:
+            res["status"] = "oom"
         if timed_out:
             res["status"] = "timeout"
         elif res["status"] == "error" and ("std::bad_alloc" in res["log_tail"] or "Out of memory" in res["log_tail"]
@@ -460,7 +475,7 @@ def run_replay_file(path):
     feat = os.path.basename(relfile)[:-3]
     hs = [x for x in discover() if x.full == full]
     if hs:
-        feat = hs[0].get("feature", hs[0].prop.lower())
+        feat = hs[0].get("feature", (CURRENT_PROP[0] or hs[0].prop).lower())
     res = {"reproduced_dev": False, "reproduced_release": None, "detail": ""}
     for prof in ("dev", "release"):
         cmd = ["cargo", "kani", "playback", "-Z", "concrete-playback", "--features", feat]
@@ -500,7 +515,7 @@ def match_known(known, h, failed):
     """A failed check is a known finding iff an entry matches harness (regex), function
     (substring) and description (regex)."""
     for k in known.get("findings", []):
-        if k.get("property") != h.prop:
+        if k.get("property") != CURRENT_PROP[0]:
             continue
         if not re.search(k["harness"], h.name):
             continue
@@ -611,9 +626,10 @@ def main(argv):
     harnesses = discover()
     if args.list:
         for h in harnesses:
-            print(h.prop, h.full, ",".join(h.tiers), h.get("kernel", ""))
+            print(",".join(h.props), h.full, ",".join(h.tiers), h.get("kernel", ""))
         return 0
     if args.replay:
+        CURRENT_PROP[0] = args.prop
         rep = run_replay_file(args.replay)
         log(json.dumps(rep, indent=1))
         if rep.get("reproduced_dev"):
@@ -624,7 +640,8 @@ def main(argv):
     if not prop:
         ap.error("property id required")
     tier = args.tier if args.tier in ("quick", "thorough") else "quick"
-    sel = [h for h in harnesses if h.prop == prop and tier in h.tiers]
+    CURRENT_PROP[0] = prop
+    sel = [h for h in harnesses if prop in h.props and tier in h.tiers]
     if args.only:
         sel = [h for h in sel if args.only in h.name]
     t0 = time.time()
